@@ -442,7 +442,12 @@ func (mr MeshReader) Read(reader io.Reader) (*modeling.Mesh, error) {
 		// Read data
 		scanner := bufio.NewScanner(reader)
 		for i := int64(0); i < vertexElement.Count; i++ {
-			scanner.Scan()
+			if !scanner.Scan() {
+				if err := scanner.Err(); err != nil {
+					return nil, err
+				}
+				return nil, fmt.Errorf("can't read %q element %w", mr.AttributeElement, io.ErrUnexpectedEOF)
+			}
 
 			text := scanner.Text()
 			if text == "" {
@@ -450,6 +455,9 @@ func (mr MeshReader) Read(reader io.Reader) (*modeling.Mesh, error) {
 			}
 
 			contents := strings.Fields(text)
+			if len(contents) < len(vertexElement.Properties) {
+				return nil, fmt.Errorf("can't read %q element %w", mr.AttributeElement, io.ErrUnexpectedEOF)
+			}
 
 			for _, reader := range asciiReaders {
 				err = reader.Read(contents, i)
@@ -580,7 +588,12 @@ func readAsciiFaceElement(element Element, scanner *bufio.Scanner) ([]int, []vec
 
 	var i int
 	for i < int(element.Count) {
-		scanner.Scan()
+		if !scanner.Scan() {
+			if err := scanner.Err(); err != nil {
+				return nil, nil, err
+			}
+			return nil, nil, fmt.Errorf("can't read %q element %w", element.Name, io.ErrUnexpectedEOF)
+		}
 		line := scanner.Text()
 
 		if line == "" {
@@ -592,6 +605,9 @@ func readAsciiFaceElement(element Element, scanner *bufio.Scanner) ([]int, []vec
 		// Read everything
 		currentOffset := 0
 		for readerIndex, reader := range readers {
+			if currentOffset >= len(contents) {
+				return nil, nil, fmt.Errorf("can't read %q element %w", element.Name, io.ErrUnexpectedEOF)
+			}
 			off, err := reader.Read(contents[currentOffset:])
 			if err != nil {
 				return nil, nil, err
